@@ -25,8 +25,9 @@ try:
         print("patch does not apply:", r.stdout); sys.exit(2)
     env = dict(os.environ); env.pop("GOFLAGS", None); env.pop("GOWORK", None)
     env.update(GOPROXY="off", GOSUMDB="off", CGO_CFLAGS="-w -O2")
-    r = subprocess.run("go build ./... 2>&1 | grep -v warning | grep '\\.go:' | head", shell=True, cwd=wt, env=env, stdout=subprocess.PIPE, text=True)
-    res["compiles"] = r.stdout.strip() == ""
+    r = subprocess.run("go build ./... 2>&1 | grep -v warning | grep '\\.go:' | grep -v '^cmd/test/' | head", shell=True, cwd=wt, env=env, stdout=subprocess.PIPE, text=True)
+    res["compiles"] = r.stdout.strip() == ""   # cmd/test/main.go does not compile at HEAD either (stale call of NewKmerMap): ignored
+    res["compile_errors"] = r.stdout.strip()[:300]
     r = subprocess.run(["/verif/scripts/baseline.py"], env=dict(os.environ, VERIF_REPO=wt), stdout=subprocess.PIPE, text=True)
     res["existing_tests"] = r.stdout.strip().split("\n")[0]
     res["existing_tests_pass"] = r.returncode == 0
